@@ -162,8 +162,7 @@ def build(rnd, tier, flags):
     cand = [idx[st.uid] for st, _ in flat if "(" in st.src or r.chance(10)]
     for i in cand[: (12 if tier == "quick" else 40)]:
         st, d = flat_at[i]
-        lax = (st.kind in ("end_interface", "interface", "tb_generic")
-               or (st.kind in ("type_decl", "attr") and ("intent(" in st.src)))
+        lax = st.kind in ("end_interface", "interface", "tb_generic")
         if lax and skip("no_paren_edit_use_procdecl_endinterface"):
             continue
         for new in _paren_edits(r, st.src, 2):
